@@ -91,6 +91,7 @@ func TestPropGauges(t *testing.T) {
 		epochs, lockChanges := 0, 0
 		lastEpochAt := 0
 		twoReceivers := false
+		receiverOf := map[uint64]string{} // lock id -> reward receiver set by the owner (absent: the owner)
 		stale := drv.Known("C09-finish-unpaid-epoch")
 
 		readGauge := func(id uint64) *types.Gauge {
@@ -263,6 +264,14 @@ func TestPropGauges(t *testing.T) {
 					if part != nil {
 						cs.Class("partial-begin-unlock")
 					}
+					// the part that was split off is the same owner's lock with the same reward receiver
+					var resp lockuptypes.MsgBeginUnlockingResponse
+					if err := r.Unpack(&resp); err == nil && resp.UnlockingLockID != l.ID {
+						if to, ok := receiverOf[l.ID]; ok {
+							receiverOf[resp.UnlockingLockID] = to
+							cs.Class("split-of-redirected-lock")
+						}
+					}
 					hist = append(hist, fmt.Sprintf("unlock #%d %s", l.ID, part))
 				}
 			},
@@ -291,6 +300,7 @@ func TestPropGauges(t *testing.T) {
 				to := chain.Actor(rapid.IntRange(0, 3).Draw(rt, "receiver"))
 				if r := c.Exec(lockuptypes.NewMsgSetRewardReceiverAddress(owner, to, l.ID)); r.OK() {
 					lockChanges++
+					receiverOf[l.ID] = to.String()
 					hist = append(hist, fmt.Sprintf("recv #%d -> %s", l.ID, to.String()[len(to.String())-4:]))
 				}
 			},
@@ -367,9 +377,11 @@ func TestPropGauges(t *testing.T) {
 					if !spam {
 						den := new(big.Int).Mul(lockSum, new(big.Int).SetUint64(remainEpochs))
 						for _, l := range q {
-							recv := l.RewardReceiverAddress
-							if recv == "" {
-								recv = l.Owner
+							// the receiver is what the owner's accepted messages made it (the harness's own record, inherited by a
+							// split), never what the lock record under test says
+							recv := l.Owner
+							if to, ok := receiverOf[l.ID]; ok {
+								recv = to
 							}
 							for _, d := range []string{"rwd", "uosmo"} {
 								if remain[d].Sign() == 0 {
